@@ -13,6 +13,7 @@ import (
 	"fmt"
 	"io"
 	"sort"
+	"strings"
 
 	"pault.ag/go/debian/deb"
 	"verifsim/rt"
@@ -120,7 +121,7 @@ func fieldOf(diff string) string {
 	return "?"
 }
 
-var c14Rejects = []string{"binver-1.0", "binver-3.0", "binver-0.939000", "binver-empty", "no-debian-binary", "no-control", "no-data"}
+var c14Rejects = []string{"binver-1.0", "binver-3.0", "binver-0.939000", "binver-empty", "no-debian-binary", "no-control", "no-data", "binver-20.0", "binver-21.3", "binver-200.0", "binver-12.0"}
 
 func runC14(r *rt.Run, tier string) {
 	t := r.T
@@ -156,6 +157,8 @@ func runC14(r *rt.Run, tier string) {
 			p.BinMember.Data = []byte("3.0\n")
 		case "binver-0.939000":
 			p.BinMember.Data = []byte("0.939000\n")
+		case "binver-20.0", "binver-21.3", "binver-200.0", "binver-12.0":
+			p.BinMember.Data = []byte(strings.TrimPrefix(reject, "binver-") + "\n")
 		case "binver-empty":
 			p.BinMember.Data = []byte{}
 		case "no-debian-binary":
